@@ -549,7 +549,8 @@ def spec_lines(run):
             f"gets={pl(gets)} unset={pl(unset)} maxtries={p.get('max_tries', '-')} mct={p.get('max_concurrent_tries', '-')} "
             f"timeout={p.get('test_timeout', 3600)} shape={shape_of(p)} scope={','.join(p.get('pool_scope', '').split()) or '-'} "
             f"filter={p.get('pool_filter', 'reuse')} rerun={','.join(p.get_list('rerun_status', [])) or '-'} "
-            f"stop={','.join(p.get_list('stop_status', [])) or '-'} rank={rank[id(n)]} objs={','.join(vms) or '-'}")
+            f"stop={','.join(p.get_list('stop_status', [])) or '-'} rank={rank[id(n)]} objs={','.join(vms) or '-'}"
+            + (f" setless={n.setless_form}" if n.is_flat() and not n.is_shared_root() else ""))
     if lazy:
         # the complete (eager) edge set, as the expansion stub will reveal it
         cdef = {c["name"]: c for c in run.spec["classes"]}
@@ -573,6 +574,9 @@ def spec_lines(run):
                 vms = sorted({objkey(o) for o in objs if o.key != "nets" and hasattr(o, "long_suffix") and o.long_suffix != "shared"})
                 lines.append(f"edge {i} {nidx[id(parent)]} {','.join(vms) or '-'}")
     lines.append(f"root {nidx[id(run.root)]}")
+    if lazy:
+        for n in run.order:
+            lines.append(f"hidden {nidx[id(n)]}")
     for loc, states in sorted(run.spec.get("pool", {}).items()):
         lines.append(f"pool {loc} " + ",".join(f"{a}:{b}" for a, b in states))
     lines.append("init")
@@ -628,7 +632,7 @@ def blocks(run):
     out, cur, curw = [], None, None
     for e in run.events:
         w, kind = e[0], e[1]
-        if kind == "timeout":
+        if kind in ("timeout", "parse"):
             continue
         if cur is None:
             if kind == "end":
@@ -825,7 +829,7 @@ def run_case(spec, driver, monitors=MONITORS, max_virtual=200000, run_cls=None):
     r.execute(max_virtual=max_virtual)
     res = {"events": len(r.events), "vtime": r.vtime, "verdict": r.verdict}
     lines = list(r.static_lines)
-    bl = [] if (r.overflow or getattr(r, 'lazy', False)) else blocks(r)
+    bl = [] if r.overflow else blocks(r)
     n0 = len(lines)
     lines += [b[0] for b in bl]
     n1 = len(lines)
